@@ -1890,7 +1890,10 @@ void eval_instruction (const char *p) {
                 {
                   if (!(sp--)->u.number)
                     error ("*Division by zero.");
-                  sp->u.number /= (sp + 1)->u.number;
+                  if ((sp + 1)->u.number == -1)
+                    sp->u.number = (int64_t) (0 - (uint64_t) sp->u.number);	/* INT64_MIN / -1 traps */
+                  else
+                    sp->u.number /= (sp + 1)->u.number;
                   break;
                 }
 
@@ -2215,7 +2218,10 @@ void eval_instruction (const char *p) {
             CHECK_TYPES (sp, T_NUMBER, 2, instruction);
             if ((sp--)->u.number == 0)
               error ("*Modulus by zero.");
-            sp->u.number %= (sp + 1)->u.number;
+            if ((sp + 1)->u.number == -1)
+              sp->u.number = 0;		/* INT64_MIN % -1 traps */
+            else
+              sp->u.number %= (sp + 1)->u.number;
           }
           break;
         case F_MOD_EQ:
